@@ -84,7 +84,7 @@ pub fn build(e: &mut Ent, src: Option<u32>) -> (StepCase, Tag) {
                 let insn = Insn::StcB { d: e.below(16) as u8 };
                 let code = encode(&insn);
                 let pc = e.code_addr(2, &[]);
-                (StepCase { code, pc, er: e.regfile(), ccr: e.u8(), patches: vec![], bus: BusCfg::ZERO, irq: None }, insn)
+                (StepCase { code, pc, er: e.regfile(), ccr: e.u8(), patches: vec![], bus: BusCfg::ZERO, irq: None, primer: None }, insn)
             } else {
                 let (c, t) = c08::build(e, Some(6), None);
                 (c, t.insn)
@@ -246,6 +246,9 @@ fn run_charge_prog(emu: &mut Emu, prog: &Prog, stop: u32) -> Result<(usize, usiz
 
 pub fn run(ctx: &Ctx) -> i32 {
     if let Some(v) = &ctx.replay {
+        if crate::checks::soup::is_soup_replay(v) {
+            return crate::checks::soup::replay(ctx, P, v);
+        }
         let case = v.get("case").unwrap_or(v);
         if case.get("kind").and_then(|k| k.as_str()) == Some("charge-program") {
             let (Some(prog), Some(stop)) = (case.get("prog").and_then(Prog::from_json), case.get("stop").and_then(|s| s.as_u64())) else { return 2 };
@@ -369,5 +372,8 @@ pub fn run(ctx: &Ctx) -> i32 {
     let rule = "cases = every implemented instruction form (all MOV forms, arithmetic, logic/shift, bit instructions, branches/jumps/calls/returns, TRAPA #1-3, RTE, STC) with code in on-chip RAM or DRAM, operands / stack / vectors in on-chip RAM, DRAM and the vector area (incl. first and last addresses), under bus-controller settings constructed so that on-chip RAM, area 0 and area 2 cost pairwise different amounts for byte and word cycles (plus the run-loop default and random settings); operand values vary freely (value independence). Oracle = sum over the reference's advanced-mode cycle table (DESIGN Appendix A) of count x cost(kind, address actually accessed). Non-trivial = code area differs from the operand/stack/vector area, or the setting is not all-zero; distinct by (form, code area, cycle areas, setting). Phase 2: generated programs of 6-40 instructions (loads/stores/bit operations through pointers into on-chip RAM, DRAM and the vector area, push/pop, one leaf call, I/O-register lookups, and stores that reprogram single bus-controller registers on the way) run in lockstep with the reference; every instruction is charged cycle table x cost rule under the setting in force when it runs (history-dependent or late-following charges).";
     let mut extra = Map::new();
     extra.insert("excluded".into(), json!(["operands in the on-chip I/O register ranges (documented TODO)", "TRAPA #0 (serviced by the emulator, not an architectural instruction)", "interrupt acceptance (not charged by the run loop)"]));
+    stats.merge(crate::checks::soup::phase(ctx, P, crate::checks::soup::Flavor::All, ctx.tier.pick(300000, 6000000), 0x20510000, true));
+    let rule_soup = format!("{}{}", rule, crate::checks::soup::RULE);
+    let rule: &str = &rule_soup;
     finish(ctx, P, stats, rule, vec!["cycle table transcribed from the H8/300H programming manual's advanced-mode table (DESIGN Appendix A); cost rule = property C19's statement, re-implemented independently".into()], extra)
 }
